@@ -22,6 +22,17 @@ CHECKS = {
         design_ref="DESIGN.md section 4, C02",
         note=TB_B,
     ),
+    "C14": dict(
+        category="model_checking",
+        technique="dynamic symbolic execution of the real Consumer with z3: attempt limit, buffer, max-buffer and message sizes as symbolic integers; failure patterns as symbolic choices",
+        text="Bounded symbolic model checking of the real Consumer's retry, offset-reset and buffer-growth code. The attempt limit is a z3 "
+             "integer, so the limit comparisons are decided by the solver for every limit in the range; buffer size, maximum and message "
+             "size are z3 integers over their whole documented range, so the growth rule (x16 up to 1 MiB, then x2, capped) and the "
+             "fail-iff-too-small rule are checked for all sizes, iterated until delivery or failure. Failure/success patterns and the "
+             "position of the out-of-range answer are exhaustively explored up to the stated length; back-off delays are compared exactly.",
+        design_ref="DESIGN.md section 4, C14",
+        note=TB_B,
+    ),
 }
 
 NOT_YET = "check not built yet in this session; see DESIGN.md section 4 for the planned solver-based harness"
